@@ -133,8 +133,27 @@ func checkC06(c *Ctx) {
 	if arg != nil {
 		ok, why := inductionPlusOne(arg)
 		if ok {
-			if bo := arg.(*ssa.BinOp); loopHeadOf(bo) != m.loopHead && bo.Block() != m.loopHead {
-				ok, why = false, "the counter is not incremented in the read loop"
+			switch x := arg.(type) {
+			case *ssa.BinOp:
+				if loopHeadOf(x) != m.loopHead && x.Block() != m.loopHead {
+					ok, why = false, "the counter is not incremented in the read loop"
+				}
+			case *ssa.Phi:
+				// for id := 1; ; id++ : the loop variable of the read loop itself, starting at 1
+				if x.Block() != m.loopHead {
+					ok, why = false, "the counter is not the read loop's variable"
+				}
+				start := false
+				for _, e := range x.Edges {
+					if k, isK := an.IntConst(e); isK {
+						if _, isC := e.(*ssa.Const); isC && k == 1 {
+							start = true
+						}
+					}
+				}
+				if !start {
+					ok, why = false, "the loop variable does not start at 1"
+				}
 			}
 		}
 		R.Check(ok, "C06-counter", "(*conn).serveRequests: request number is the loop counter", c.pos(m.readReq), "readRequest receives "+via+" "+why, "request numbering is not 1,2,3,... in arrival order: "+why)
@@ -145,7 +164,7 @@ func checkC06(c *Ctx) {
 			R.Fail("C06-counter", fname(fs.Fn)+": store Request.ID", c.pos(fs.Store), "Request.ID is written outside newRequest")
 		}
 	}
-	R.Floor("C06-counter", 3)
+	R.Floor("C06-counter", 2)
 
 	// ---- C06-sequential-read
 	for _, ci := range callSites(shipped, isStatic(G, "(*conn).readRequest")) {
@@ -295,7 +314,7 @@ func checkC06(c *Ctx) {
 		}
 	}
 	R.Count("C06-nolock-handler/sites", nH)
-	R.Floor("C06-nolock-handler", 4)
+	R.Floor("C06-nolock-handler", 2)
 
 	// ---- C06-conn-async
 	for _, ci := range callSites(shipped, isStatic(G, "(*conn).serveRequests")) {
@@ -409,13 +428,46 @@ func checkC10(c *Ctx) {
 		R.Fail("C10-terminal", "(*conn).serveRequests: unbind returns", c.pos(g.If), "no return reachable after unbind")
 	}
 	// ---- C10-handler-once
+	// the handler call sits on the unbind path of serveRequests, or in a helper that path calls exactly once
+	hFn, hStart := m.serve, an.Point{B: ubSucc, I: 0}
+	inRegion := func(ci ssa.CallInstruction) bool { return ubSucc.Dominates(ci.Block()) }
+	{
+		direct := false
+		for _, ci := range an.Calls(m.serve) {
+			if isHandlerInvoke(ci.Common()) && ubSucc.Dominates(ci.Block()) {
+				direct = true
+			}
+		}
+		if !direct {
+			for _, ci := range an.Calls(m.serve) {
+				u := an.StaticCallee(ci.Common())
+				if u == nil || !an.InModule(u) || len(u.Blocks) == 0 || !ubSucc.Dominates(ci.Block()) || !isCall(ci) {
+					continue
+				}
+				has := false
+				for _, ic := range an.Calls(u) {
+					if isHandlerInvoke(ic.Common()) {
+						has = true
+					}
+				}
+				if ok, _ := syncOnlyFrom(u, m.serve, c.shippedFuncs(G), 0); !has || !ok {
+					continue
+				}
+				// every path of the unbind branch runs the helper exactly once
+				if an.Search(an.Point{B: ubSucc, I: 0}, an.IsReturn, isInstr(ci)) == nil && an.Search(an.After(ci), isInstr(ci), nil) == nil {
+					hFn, hStart = u, an.Entry(u)
+					inRegion = func(ssa.CallInstruction) bool { return true }
+				}
+			}
+		}
+	}
 	var hcalls []ssa.CallInstruction
-	for _, ci := range an.Calls(m.serve) {
-		if isHandlerInvoke(ci.Common()) && ubSucc.Dominates(ci.Block()) {
+	for _, ci := range an.Calls(hFn) {
+		if isHandlerInvoke(ci.Common()) && inRegion(ci) {
 			hcalls = append(hcalls, ci)
 		}
 	}
-	nilIfs := ifsOn(m.serve, func(v ssa.Value) bool {
+	nilIfs := ifsOn(hFn, func(v ssa.Value) bool {
 		x, _, ok := an.NilCheck(v)
 		if !ok {
 			return false
@@ -440,7 +492,7 @@ func checkC10(c *Ctx) {
 			ok = false
 		}
 		// with a route: exactly once; every path from unbind edge passes the nil test
-		if an.Search(an.Point{B: ubSucc, I: 0}, an.IsReturn, isInstr(ng.If)) != nil {
+		if an.Search(hStart, an.IsReturn, isInstr(ng.If)) != nil {
 			ok = false
 		}
 		if an.Search(an.Point{B: nonNil, I: 0}, an.IsReturn, isInstr(h)) != nil {
@@ -661,7 +713,7 @@ func checkC13(c *Ctx) {
 			}
 		}
 	}
-	R.Floor("C13-no-bypass", 4)
+	R.Floor("C13-no-bypass", 2)
 	R.Assumptions = append(R.Assumptions, "Request.StartTLS is called from the StartTLS handler, which C13-inline shows runs on the read-loop goroutine")
 	R.NotDecided = append(R.NotDecided, "what crypto/tls puts on the wire; handshake outcome for a given client timing")
 }
